@@ -123,8 +123,20 @@ fn cases_for(open: &Node, coins: &[(CoinID, u128, u64)], difficulties: &[(u32, b
 }
 
 pub fn run_world(run: &Run, net: NetID, ages: &[u64], difficulties: &[(u32, bool)], thorough: bool) {
+    run_world_at(run, net, None, ages, difficulties, thorough)
+}
+
+/// The same world started at a greater height (the root re-labelled there): the inflator grows with the height, so that
+/// floor(inflator x floor(reward)) and floor(inflator x reward) come apart.
+pub fn run_world_at(run: &Run, net: NetID, start: Option<u64>, ages: &[u64], difficulties: &[(u32, bool)], thorough: bool) {
     let eng = Engine::new(run);
-    let (_w, root) = root(net, 0, net != NetID::Mainnet);
+    let (_w, mut root) = root(net, 0, net != NetID::Mainnet);
+    if let Some(h) = start {
+        root = match eng.step(&root, &Action::Jump(h)) {
+            StepOut::Next(x) => x,
+            _ => return,
+        };
+    }
     // block 1: split the genesis coin into puzzle coins
     let open = match eng.step(&root, &Action::Open) {
         StepOut::Next(x) => x,
@@ -438,6 +450,10 @@ pub fn run(run: &Run) {
     let m_ages: Vec<u64> = if thorough { vec![1, 50, 99, 100, 101] } else { vec![99, 100] };
     let m_diffs: Vec<(u32, bool)> = vec![(2, false), (8, false), (16, false), (3, true)];
     run_world(run, NetID::Mainnet, &m_ages, &m_diffs, thorough);
+    // greater heights (inflator 1.001 .. e^0.5): reward bounds with fractional parts
+    for h in if thorough { vec![1_040u64, 2_100, 100_000, 1_000_000] } else { vec![1_040u64, 1_000_000] } {
+        run_world_at(run, NetID::Custom02, Some(h), &[1, 2], &[(8, false), (3, true), (14, true)], thorough);
+    }
     // the genesis coin on a chain younger than / as old as the Mainnet age threshold
     let g_heights: Vec<u64> = if thorough { vec![1, 2, 50, 99, 100, 101] } else { vec![1, 99, 100] };
     genesis_coin_world(run, NetID::Mainnet, &g_heights, &[(2, false), (8, false), (3, true)], thorough);
